@@ -125,8 +125,9 @@ def run(ctx):
         case = A.by_category_missing(ctx.rng, A.gen_case(ctx.rng, k=ctx.rng.choice([1, 2, 2, 3]), N=ctx.rng.choice([3, 5, 8, 13])))
         ctx.hit("by_category_missing")
         check(ctx, case, reqs, pend)
-    for _ in range(ctx.n(5)):       # residue stream: inexact weight sums; empty cells must stay missing after differencing
-        case = A.gen_case(ctx.rng, k=2, N=ctx.rng.choice([9, 14, 25]), general="residue")
+    for _ in range(ctx.n(8)):       # residue stream: inexact weight sums; empty cells must stay missing after differencing
+        case = (A.residue_case(ctx.rng) if _ % 2 == 0 else
+                A.gen_case(ctx.rng, k=2, N=ctx.rng.choice([9, 14, 25]), general="residue"))
         case["ignore"] = True if _ % 2 else case["ignore"]
         ctx.hit("residue_stream")
         check(ctx, case, reqs, pend)
